@@ -41,12 +41,12 @@ def repo_dir():
     return os.environ.get("VERIF_REPO_DIR", "/repo")
 
 
-def build_hv(cmd="hv"):
+def build_hv(cmd="hv", race=False):
     """(re)build one harness binary (harness/cmd/<cmd>) from the working tree of the repository under test,
     hooks enabled. Each family has its own command so that families build independently."""
     os.makedirs(BIN, exist_ok=True)
     rd = repo_dir()
-    hdir, out = HARNESS, os.path.join(BIN, cmd)
+    hdir, out = HARNESS, os.path.join(BIN, cmd + ("_race" if race else ""))
     if rd != "/repo":
         tag = hashlib.sha1(rd.encode()).hexdigest()[:8]
         hdir = os.path.join(WORK, "harness_" + tag)
@@ -54,13 +54,13 @@ def build_hv(cmd="hv"):
         shutil.copytree(HARNESS, hdir)
         gm = open(os.path.join(hdir, "go.mod")).read().replace("=> /repo", "=> " + rd)
         open(os.path.join(hdir, "go.mod"), "w").write(gm)
-        out = os.path.join(BIN, cmd + "_" + tag)
+        out = os.path.join(BIN, cmd + ("_race" if race else "") + "_" + tag)
     want = open(os.path.join(rd, "go.sum")).read()
     gs = os.path.join(hdir, "go.sum")
     if not os.path.exists(gs) or open(gs).read() != want:
         open(gs, "w").write(want)
     tmp = "%s.tmp%d" % (out, os.getpid())
-    rc, o, dt = sh(["go", "build", "-tags", "verif", "-o", tmp, "./cmd/" + cmd], cwd=hdir, env=GOENV,
+    rc, o, dt = sh(["go", "build"] + (["-race"] if race else []) + ["-tags", "verif", "-o", tmp, "./cmd/" + cmd], cwd=hdir, env=GOENV,
                    timeout=1500, check=False)
     if rc != 0:
         raise Inconclusive("harness does not build against %s:\n%s" % (rd, o[-6000:]))
@@ -139,10 +139,22 @@ def lab_desc(lab):
 def tlc_scenario_to_harness(js, sid, driver):
     """TLC hist (Helm.tla GenExport) -> harness scenario (DESIGN 2.7)"""
     sc = {"id": sid, "driver": driver, "pre": [], "steps": []}
+    sched = []
     for st in js["steps"]:
+        if st["step"] in ("c", "e"):
+            sched.append({"k": st["step"], "p": st["p"]})
+            continue
+        if st["step"] == "op":
+            sched.append({"k": "b", "p": st.get("p", 1)})
         if st["step"] == "init":
+            for rev, ch in enumerate(st.get("store", []), start=1):
+                if ch != "none":
+                    # the initial ledger of the specification is reached by real operations
+                    sc.setdefault("setup", []).append({"op": "install" if rev == 1 else "upgrade", "chart": ch, "flags": {}})
             for oid, o in st["cluster"].items():
                 if o["own"] != "absent":
+                    if oid in CHARTS.get(next((c for c in st.get("store", []) if c != "none"), ""), {"res": {}})["res"]:
+                        continue      # created by the setup operations
                     sc["pre"].append({"res": oid, "kind": kind_of_id(oid), "own": o["own"], "f1": o["f1"],
                                       "f2": o["f2"], "keep": o["pol"] == "keep"})
         elif st["step"] == "op":
@@ -165,6 +177,8 @@ def tlc_scenario_to_harness(js, sid, driver):
                 sc["steps"].append({"oobdel": e["res"]})
             else:
                 sc["steps"].append({"oobkeep": e["res"]})
+    if any(t["k"] in ("c", "e") for t in sched):
+        sc["sched"] = sched
     return sc
 
 
@@ -213,13 +227,26 @@ def load_trace(tf):
 
 
 def split_traces(events):
-    """list of (scenario id, [events])"""
+    """list of (scenario id, [events]); harness notes are dropped (see notes_of)"""
     out, cur = [], None
     for e in events:
+        if e["ev"] == "note":
+            continue
         if e["ev"] == "reset":
             cur = (e["scenario"], [])
             out.append(cur)
         cur[1].append(e)
+    return out
+
+
+def notes_of(events):
+    """{scenario id: [note kinds]} (e.g. sched-diverged)"""
+    out, cur = {}, None
+    for e in events:
+        if e["ev"] == "reset":
+            cur = e["scenario"]
+        elif e["ev"] == "note":
+            out.setdefault(cur, []).append(e["kind"])
     return out
 
 
